@@ -193,7 +193,14 @@ def after_fitting_free_region(taker):
                 if taker == "take_free" and pc._root(cb, size) != pc._root(cb, t["a"][2]):
                     continue            # take_free(new_size): the very new_size handed to the callee
                 if taker == "take_free_after":
-                    subs = [d[2] for d in cfg.defs(cb).get(pc._root(cb, size), []) if d[0] == "assign" and d[2]["k"] == "bin"]
+                    loc_ = pc._root(cb, size)
+                    for _ in range(3):              # through named temporaries (`let additional = new_size - record.size;`)
+                        dd = [d for d in cfg.defs(cb).get(loc_, []) if d[0] == "assign"]
+                        if len(dd) == 1 and dd[0][2]["k"] in ("use", "cast") and cfg.op_place(dd[0][2]["o"]):
+                            loc_ = pc._root(cb, dd[0][2]["o"])
+                        else:
+                            break
+                    subs = [d[2] for d in cfg.defs(cb).get(loc_, []) if d[0] == "assign" and d[2]["k"] == "bin"]
                     if not (len(subs) == 1 and subs[0]["op"].startswith("Sub") and
                             pc._root(cb, subs[0]["a"]) == pc._root(cb, t["a"][2])):
                         continue        # take_free_after(end, new_size - record.size)
